@@ -68,15 +68,18 @@ GROUP = {"backoff_delay": "Recon", "should_attempt_reconnect": "Recon", "record_
          "cls_derive_max_delay_budget": "Cls", "cls_target_best_delay_ms": "Cls", "cls_target_safe_delay_ms": "Cls",
          "cls_target_max_delay_ms": "Cls", "cls_pick_tier": "Cls",
          "regime_from_bps": "Batch", "regime_batch_size": "Batch", "batch_queue_packet": "Batch",
-         "batch_set_regime": "Batch", "conn_recompute_batch_regime": "Batch"}
+         "batch_set_regime": "Batch", "conn_recompute_batch_regime": "Batch",
+         "kalman_update": "Rtt", "kalman_reset": "Rtt", "ewma_update": "Rtt", "ewma_reset": "Rtt",
+         "rtt_is_stable": "Rtt", "rtt_gradient_ms": "Rtt", "rtt_queue_building_suspected": "Rtt",
+         "rtt_record_keepalive_sent": "Rtt"}
 # groups with a canonical signature: parameters = the self fields read in struct declaration order, then the
 # opaque getter inputs, then the Rust parameters in signature order; outputs in the same order.  (The four
 # earlier groups keep the order of first use in the body, which the lemmas of Proofs/Leaf{Recon,Live,Cong,
 # Seq}P.v are stated for.)  With a canonical order neither a reordering of reads in the body nor a swap of
 # two same-typed arguments of a wrapper can move a parameter under the lemma that applies it by position.
-CANONICAL_GROUPS = {"Stall", "Recov", "Cfg", "Reg", "Trk", "Batch", "Crit", "Cc", "Cls"}
+CANONICAL_GROUPS = {"Rtt", "Stall", "Recov", "Cfg", "Reg", "Trk", "Batch", "Crit", "Cc", "Cls"}
 # groups whose definitions may use f64 values (header additionally imports Floats, FConstants, Select)
-FLOAT_GROUPS = {"Stall", "Recov", "Batch", "Cc", "Cls"}
+FLOAT_GROUPS = {"Rtt", "Stall", "Recov", "Batch", "Cc", "Cls"}
 CORE = "crates/srtla-core/src/"
 
 # (coq name, file, impl type or None for a free fn, fn name)
@@ -146,6 +149,15 @@ LEAVES = [
     ("cls_target_safe_delay_ms", CORE + "selection/classifier.rs", None, "target_safe_delay_ms"),
     ("cls_target_max_delay_ms", CORE + "selection/classifier.rs", None, "target_max_delay_ms"),
     ("cls_pick_tier", CORE + "selection/classifier.rs", None, "pick_tier"),
+    # fourth batch: the f64 smoothing path behind the RTT estimate (C14)
+    ("kalman_update", CORE + "kalman.rs", "KalmanFilter", "update"),
+    ("kalman_reset", CORE + "kalman.rs", "KalmanFilter", "reset"),
+    ("ewma_update", CORE + "ewma.rs", "Ewma", "update"),
+    ("ewma_reset", CORE + "ewma.rs", "Ewma", "reset"),
+    ("rtt_record_keepalive_sent", CORE + "connection/rtt.rs", "RttTracker", "record_keepalive_sent"),
+    ("rtt_gradient_ms", CORE + "connection/rtt.rs", "RttTracker", "rtt_gradient_ms"),
+    ("rtt_is_stable", CORE + "connection/rtt.rs", "RttTracker", "is_stable"),
+    ("rtt_queue_building_suspected", CORE + "connection/rtt.rs", "RttTracker", "queue_building_suspected"),
 ]
 
 # leaves whose equivalence lemma mentions leaf_<name>_asserts: the definition is emitted even when the
@@ -153,7 +165,8 @@ LEAVES = [
 ALWAYS_ASSERTS = {"set_conn_timeout_ms", "cls_derive_max_delay_budget"}
 # getters of untranslated component types that are read as an *input* of the leaf (named
 # <field path>_<getter>); everything else called on a component is a translation error
-OPAQUE_GETTERS = {("KalmanFilter", "value"): "f64", ("KalmanFilter", "velocity"): "f64"}
+OPAQUE_GETTERS = {("KalmanFilter", "value"): "f64", ("KalmanFilter", "velocity"): "f64",
+                  ("KalmanFilter", "is_initialized"): "bool", ("Ewma", "value"): "f64"}
 # atomics: store/load with any ordering = plain write/read of a field of the underlying type
 ATOMIC = {"AtomicU64": "u64", "AtomicU32": "u32", "AtomicI32": "i32", "AtomicBool": "bool", "AtomicUsize": "usize"}
 
@@ -279,12 +292,76 @@ def struct_fields(src_by_file):
             fields = {}
             for fm in re.finditer(r"(?:pub(?:\([a-z]+\))?\s+)?(\w+)\s*:\s*([^,\n]+?)\s*,", body + ","):
                 fields.setdefault(fm.group(1), fm.group(2).strip())
-            out.setdefault(m.group(1), {}).update(fields)
+            # a small fixed array of f64 (`p: [f64; 4]`) is its elements `p_0 .. p_3`, in place (declaration order
+            # is what the canonical signatures sort by)
+            expanded = {}
+            for f, t in fields.items():
+                am = re.match(r"\[\s*f64\s*;\s*(\d+)\s*\]$", t)
+                if am and int(am.group(1)) <= 8:
+                    SMALL_F64_ARRAYS.setdefault(m.group(1), {})[f] = int(am.group(1))
+                    for i in range(int(am.group(1))):
+                        expanded["%s_%d" % (f, i)] = "f64"
+                else:
+                    expanded[f] = t
+            out.setdefault(m.group(1), {}).update(expanded)
     return out
 
 
+SMALL_F64_ARRAYS = {}     # struct -> {field: N} for fields of type [f64; N], N <= 8
+
+
+def split_top(s):
+    """split at top-level commas"""
+    parts, depth, cur = [], 0, ""
+    for ch in s:
+        if ch in "([{":
+            depth += 1
+        elif ch in ")]}":
+            depth -= 1
+        if ch == "," and depth == 0:
+            parts.append(cur)
+            cur = ""
+        else:
+            cur += ch
+    if cur.strip():
+        parts.append(cur)
+    return [p.strip() for p in parts]
+
+
+def desugar_small_arrays(body, impl):
+    """`self.p[K]` -> `self.p_K`; `self.p = [e0, .., eN-1];` / `self.p = [e; N];` -> N element assignments (the
+    element expressions must not read self.p, so that assigning one by one is what the array assignment does).
+    Any other mention of self.p is an error."""
+    for f, n in SMALL_F64_ARRAYS.get(impl or "", {}).items():
+        while True:
+            m = re.search(r"self\s*\.\s*%s\s*=\s*\[" % re.escape(f), body)
+            if not m:
+                break
+            depth, j = 1, m.end()
+            while depth:
+                depth += {"[": 1, "]": -1}.get(body[j], 0)
+                j += 1
+            inner = body[m.end():j - 1]
+            semi = re.match(r"\s*;", body[j:])
+            if not semi:
+                raise TErr("self.%s = [..] not followed by `;`" % f)
+            rm = re.match(r"(.*);\s*(\d+)\s*$", inner, re.S)
+            elems = [rm.group(1).strip()] * int(rm.group(2)) if rm else split_top(inner)
+            if len(elems) != n:
+                raise TErr("self.%s = [..] with %d elements for [f64; %d]" % (f, len(elems), n))
+            if any(re.search(r"self\s*\.\s*%s\b" % re.escape(f), e) for e in elems):
+                raise TErr("self.%s = [..] reads self.%s" % (f, f))
+            body = body[:m.start()] + " ".join("self.%s_%d = %s;" % (f, i, e) for i, e in enumerate(elems)) + \
+                body[j + semi.end():]
+        body = re.sub(r"self\s*\.\s*%s\s*\[\s*(\d+)\s*\]" % re.escape(f),
+                      lambda mm: ("self.%s_%s" % (f, mm.group(1))) if int(mm.group(1)) < n else mm.group(0), body)
+        if re.search(r"self\s*\.\s*%s\b(?!_)" % re.escape(f), body):
+            raise TErr("self.%s used other than as self.%s[<literal index>] or a whole-array assignment" % (f, f))
+    return body
+
+
 # ------------------------------------------------------------------ tokenizer / parser
-TOK = re.compile(r"\s*(?:(\"\")|(\d[\d_]*(?:\.\d+)?(?:_?(?:u8|u16|u32|u64|usize|i32|i64|f64))?)|"
+TOK = re.compile(r"\s*(?:(\"\")|(\d[\d_]*(?:\.\d+)?(?:[eE][-+]?\d+)?(?:_?(?:u8|u16|u32|u64|usize|i32|i64|f64))?)|"
                  r"([A-Za-z_][A-Za-z0-9_]*(?:::[A-Za-z_][A-Za-z0-9_]*)*!?)|"
                  r"(<<|>>|&&|\|\||==|!=|<=|>=|\+=|-=|\*=|=>|->|[-+*/%<>=!&|(){}\[\];,.:?]))")
 
@@ -694,7 +771,7 @@ def coq_type(rty):
 def num_lit(v):
     m = re.match(r"(\d[\d_]*)(?:_?(u8|u16|u32|u64|usize|i32|i64))?$", v)
     if not m:
-        f = re.match(r"(\d[\d_]*(?:\.\d+)?)(?:_?f64)?$", v)
+        f = re.match(r"(\d[\d_]*(?:\.\d+)?(?:[eE][-+]?\d+)?)(?:_?f64)?$", v)
         if not f:
             raise TErr("numeric literal %s" % v)
         # f64 literal: correctly rounded by Python exactly as rustc does, written in hex (exact)
@@ -1154,6 +1231,12 @@ def ev(e, env):
         if name == "is_finite" and not args and tr == "f64":
             ctx.uses_float = True
             return "(PrimFloat.is_finite %s)" % sr, "bool"
+        if name in ("is_nan", "is_infinite") and not args and tr == "f64":
+            ctx.uses_float = True
+            return "(PrimFloat.%s %s)" % ({"is_nan": "is_nan", "is_infinite": "is_infinity"}[name], sr), "bool"
+        if name == "abs" and not args and tr == "f64":
+            ctx.uses_float = True
+            return "(PrimFloat.abs %s)" % sr, "f64"
         if name in ("min", "max") and "f64" in (tr, sargs[0][1]):
             if not (tr in ("f64", None) and sargs[0][1] in ("f64", None)):
                 raise TErr("f64 %s on %s and %s" % (name, tr, sargs[0][1]))
@@ -1668,6 +1751,7 @@ def run_block(stmts, env, want_value):
 def translate(coq_name, rel, impl, fn, srcs, structs, consts):
     src = srcs[rel]
     params, ret, body = find_fn(src, impl, fn)
+    body = desugar_small_arrays(body, impl)
     ctx = Ctx(structs, consts, impl)
     env = Env(ctx)
     fparams = []
